@@ -215,8 +215,112 @@ fn nf_run(a: &[&str]) -> String {
     }
 }
 
+fn tv(a: &[&str]) -> radix_transactions::validation::TransactionValidator {
+    // <net_some 0|1> <net_id> <min_tip_pct> <max_tip_pct> <max_epoch_range> <min_tip_bp> <max_tip_bp> <max_refs_per_intent> <max_total_refs>
+    use radix_transactions::validation::*;
+    let mut c = TransactionValidationConfig::latest();
+    c.min_tip_percentage = a[2].parse().unwrap();
+    c.max_tip_percentage = a[3].parse().unwrap();
+    c.max_epoch_range = a[4].parse().unwrap();
+    c.min_tip_basis_points = a[5].parse().unwrap();
+    c.max_tip_basis_points = a[6].parse().unwrap();
+    c.max_references_per_intent = a[7].parse().unwrap();
+    c.max_total_references = a[8].parse().unwrap();
+    if a[0] == "1" {
+        TransactionValidator::new_with_static_config(c, a[1].parse().unwrap())
+    } else {
+        TransactionValidator::new_with_static_config_network_agnostic(c)
+    }
+}
+
+fn opt_instant(kind: &str, v: &str) -> Option<radix_common::time::Instant> {
+    if kind == "1" {
+        Some(radix_common::time::Instant::new(v.parse().unwrap()))
+    } else {
+        None
+    }
+}
+
+fn header_ops(a: &[&str]) -> String {
+    use radix_common::prelude::{Epoch, PublicKey, Secp256k1PublicKey};
+    use radix_transactions::model::*;
+    use radix_transactions::validation::*;
+    let v = tv(&a[1..10]);
+    let key = PublicKey::Secp256k1(Secp256k1PublicKey([0u8; 33]));
+    let r = &a[10..];
+    match a[0] {
+        "header_v1" => {
+            let h = TransactionHeaderV1 {
+                network_id: r[0].parse().unwrap(),
+                start_epoch_inclusive: Epoch::of(r[1].parse().unwrap()),
+                end_epoch_exclusive: Epoch::of(r[2].parse().unwrap()),
+                nonce: 5,
+                notary_public_key: key,
+                notary_is_signatory: false,
+                tip_percentage: r[3].parse().unwrap(),
+            };
+            match v.validate_header_v1(&h) {
+                Ok(()) => "ok 0".into(),
+                Err(_) => "err".into(),
+            }
+        }
+        "header_v2_tx" => {
+            let h = TransactionHeaderV2 {
+                notary_public_key: key,
+                notary_is_signatory: false,
+                tip_basis_points: r[0].parse().unwrap(),
+            };
+            match v.validate_transaction_header_v2(&h) {
+                Ok(()) => "ok 0".into(),
+                Err(_) => "err".into(),
+            }
+        }
+        _ => {
+            // header_v2_intent: first an aggregation state built with one update_headers call on start(), then the intent
+            // <agg used 0|1> <as> <ae> <ats kind> <ats> <ate kind> <ate> | <net> <hs> <he> <hts kind> <hts> <hte kind> <hte>
+            let mut agg = AcrossIntentAggregation::start();
+            if r[0] == "1" {
+                let ts = opt_instant(r[3], r[4]);
+                let te = opt_instant(r[5], r[6]);
+                if agg
+                    .update_headers(Epoch::of(r[1].parse().unwrap()), Epoch::of(r[2].parse().unwrap()), ts.as_ref(), te.as_ref())
+                    .is_err()
+                {
+                    return "val unreachable".into();
+                }
+            }
+            let h = IntentHeaderV2 {
+                network_id: r[7].parse().unwrap(),
+                start_epoch_inclusive: Epoch::of(r[8].parse().unwrap()),
+                end_epoch_exclusive: Epoch::of(r[9].parse().unwrap()),
+                min_proposer_timestamp_inclusive: opt_instant(r[10], r[11]),
+                max_proposer_timestamp_exclusive: opt_instant(r[12], r[13]),
+                intent_discriminator: 1,
+            };
+            match v.validate_intent_header_v2(&h, &mut agg) {
+                Ok(()) => {
+                    let o = agg.finalize(&TransactionValidationConfig::latest()).ok().unwrap();
+                    let t = |x: Option<radix_common::time::Instant>| match x {
+                        Some(i) => format!("1 {}", i.seconds_since_unix_epoch),
+                        None => "0 0".to_string(),
+                    };
+                    format!(
+                        "ok {} {} {} {}",
+                        o.epoch_range.start_epoch_inclusive.number(),
+                        o.epoch_range.end_epoch_exclusive.number(),
+                        t(o.proposer_timestamp_range.start_timestamp_inclusive),
+                        t(o.proposer_timestamp_range.end_timestamp_exclusive)
+                    )
+                }
+                Err(_) => "err".into(),
+            }
+        }
+    }
+}
+
 fn run(a: &[&str]) -> String {
     match a[0] {
+        "header_v1" | "header_v2_tx" | "header_v2_intent" => header_ops(a),
         "nf_run" => nf_run(&a[1..]),
         "read_memory" => match radix_engine::vm::wasm::verif_read_memory(
             a[1].parse().unwrap(),
